@@ -13,7 +13,7 @@ EXPLANATION = ("R1 path-sensitive extraction of the envelope decoder: on every s
 TRUSTED = ['tokio mpsc/oneshot channels are FIFO and single-consumer', 'tokio_util Framed calls the decoder on the bytes in order']
 UNDECIDED = ['channel and Framed FIFO behaviour (trusted)', 'cross-talk under IDs wider than 32 bits (`id as i32` truncation)']
 ASSUMPTIONS = []
-SHARED = [('C05', ('N1.', 'N2.', 'N3.', 'N4.', 'N5.', 'N8.'), 'R11.ids-unique')]      # routing by ID presupposes that concurrent operations never share an ID and that the ID of an operation the client gave up is not handed out again while its late reply may still arrive (numbering only advances)
+SHARED = [('C05', ('N1.', 'N2.', 'N3.', 'N4.', 'N5.', 'N8.'), 'R11.ids-unique'), ('C02', ('S13.',), 'R12.id-on-the-wire'), ('C10', ('Q4.entries-only.start', 'Q4.entries-only.collects', 'Q4.entries-only.finish'), 'R13.referrals-of-this-search')]      # routing by ID presupposes that concurrent operations never share an ID and that the ID of an operation the client gave up is not handed out again while its late reply may still arrive (numbering only advances)
 
 RFC4511_SEARCH_RESP = {4: 'SearchItem::Entry', 25: 'SearchItem::Entry', 19: 'SearchItem::Referral', 5: 'SearchItem::Done'}
 
@@ -105,6 +105,29 @@ def run(ctx):
         okp, bad = from_message(L.origin(n['args'][0]))
         ctx.add('R3.payload-from-same-message', want, loc(n), okp,
                 'reply payload contains data not originating in the decoded message: %s' % [hirq.fmt_origin((b, ())) for b in bad])
+
+    # R3 on the enumerated paths of the response arm: what is handed to a waiting operation is the decoded message itself - the
+    # protocolOp it carried and the control list it carried, the latter as decoded (not a list that an earlier statement of the
+    # arm has emptied, replaced or filtered)
+    MSG = ('variant', ('variant', driver.ARM, 'Some', 0), 'Ok', 0)
+    M_TAG, M_CTRLS = ('field', ('field', MSG, '1'), '0'), ('field', ('field', MSG, '1'), '1')
+    n_pl = 0
+    for o in driver.arm_paths(C, 'response')[0]:
+        for T, want in ((anchors.T_ITEM_SENDER, 'search'), (anchors.T_RESULT_SENDER, 'result')):
+            for i, args, node in driver.sends(o, T):
+                n_pl += 1
+                pl = args[1]
+                parts = pl[1] if pl[0] == 'tuple' and len(pl[1]) == 2 else None
+                ok_c = parts is not None and parts[1] == M_CTRLS
+                ctx.add('R3.controls-are-the-decoded-ones', want, loc(node), ok_c,
+                        'the control list handed to the waiting %s is %s, not the control list decoded from this message' % (
+                            'search' if want == 'search' else 'operation', absx.fmt(parts[1])[:80] if parts else absx.fmt(pl)[:80]))
+                if parts is not None:
+                    op = parts[0]
+                    ok_t = (op == M_TAG) if want == 'result' else (sem.has(op, lambda x: x == M_TAG) and not sem.has(op, lambda x: x == M_CTRLS or x[0] in ('default', 'unk')))
+                    ctx.add('R3.protocol-op-is-the-decoded-one', want, loc(node), ok_t,
+                            'the response handed to the waiting %s is %s, not the protocolOp decoded from this message' % (want, absx.fmt(op)[:80]))
+    ctx.floor('R3', 'reply sends on the enumerated paths of the response arm', n_pl, 4)
 
     # R4 classification table, decided by evaluating the response arm once per protocolOp number (finite partition: every number
     # the code compares with, and a representative of the rest); what is read off is what the arm *does* for that number - which
